@@ -194,6 +194,9 @@ struct Hist {
     c11_ext_known: BTreeSet<String>,
     c11_probe_known: u64,
     c11_ext_conflicts: usize,
+    /// node-level histories (C10, C11): one payment hash used by every channel, approved once for one part
+    shared_hash_enabled: bool,
+    shared_registered: bool,
 }
 
 #[derive(Clone, Copy, PartialEq, Eq, Debug)]
@@ -284,7 +287,7 @@ impl Hist {
         cfg.cloud = cloud;
         cfg.policy.max_invoices = 100_000;
         let world = World::new(cfg);
-        Hist { world, chans: vec![], log: vec![], next_dbid: 1, fresh_tag: (shard as u64) << 40 | index << 20, keysend_tag: 0, secp: Secp256k1::new(), shard, index, c11_known: BTreeSet::new(), c11_ext_known: BTreeSet::new(), c11_probe_known: 0, c11_ext_conflicts: 0 }
+        Hist { world, chans: vec![], log: vec![], next_dbid: 1, fresh_tag: (shard as u64) << 40 | index << 20, keysend_tag: 0, secp: Secp256k1::new(), shard, index, c11_known: BTreeSet::new(), c11_ext_known: BTreeSet::new(), c11_probe_known: 0, c11_ext_conflicts: 0, shared_hash_enabled: false, shared_registered: false }
     }
 
     fn height(&self) -> u32 {
@@ -371,6 +374,27 @@ impl Hist {
                     self.fresh_tag = tag;
                     new_offered = offered;
                     break;
+                }
+            }
+        }
+        // Two channels, one payment: in node-level histories a new commitment may also offer a part of the
+        // history's shared payment hash, which is approved once for 35_000 sat while every part is 30_000 sat.
+        // Each part passes when its commitment is validated; the second channel to revoke is refused by the
+        // node-wide payment check (at validate or at revoke time, depending on the order of the requests).
+        if register && self.shared_hash_enabled && n > 0 && self.chans.len() >= 2 && rng.chance(1, 3) {
+            let (shared, _) = vls_verif::chanmodel::payment_hash_for(0x5348_0000_0000_0000 | (self.shard as u64) << 32 | self.index);
+            let mut trial = self.chans[c].bal.clone();
+            let has = trial.offered.iter().any(|h| h.payment_hash == shared);
+            if !has && trial.holder_sat > 30_000 + 20_000 && trial.offered.len() + trial.received.len() < 8 {
+                trial.holder_sat -= 30_000;
+                trial.offered.push(lightning_signer::tx::tx::HTLCInfo2 { value_sat: 30_000, payment_hash: shared, cltv_expiry: height + 100 });
+                if trial.content(&setup).is_some() {
+                    self.chans[c].bal = trial;
+                    if !self.shared_registered {
+                        let payee = PublicKey::from_secret_key(&self.secp, &SecretKey::from_slice(&[5; 32]).unwrap());
+                        let _ = self.world.request(|node| report::catch(|| node.add_keysend(payee, shared, 35_000_000)));
+                        self.shared_registered = true;
+                    }
                 }
             }
         }
@@ -1538,6 +1562,7 @@ fn c11_external(h: &mut Hist, live: &snapshot::Snapshot, now: u64, r: &mut Repor
 fn run_history(rng: &mut Rng, r: &mut Report, cli: &Cli, prop: Prop, shard: usize, index: u64, steps: u64) {
     let cloud = matches!(prop, Prop::C10 | Prop::C11) && index % 3 == 2;
     let mut h = Hist::new(rng, shard, index, cloud);
+    h.shared_hash_enabled = matches!(prop, Prop::C10 | Prop::C11) && index % 2 == 0;
     if matches!(prop, Prop::C10 | Prop::C11) && index % 3 == 1 {
         // fill the tracker's header window (MAX_REORG_SIZE = 100) so that requests act on a full window
         let n = 98 + rng.below(8);
@@ -1553,7 +1578,19 @@ fn run_history(rng: &mut Rng, r: &mut Report, cli: &Cli, prop: Prop, shard: usiz
     // restarted at once, a few requests later, or not at all.  Every violation raised after the episode carries
     // the kind of the request that met the fault in its signature.
     r.sig_suffix.clear();
-    let mut fault_from: Option<u64> = if matches!(prop, Prop::C01 | Prop::C02 | Prop::C03) && index % 4 == 3 { Some(rng.below(steps.max(1))) } else { None };
+    // C11 takes part too (plain store only): a request that failed at the store was not acknowledged and the
+    // signer's memory may legitimately be ahead of the store until the next restart, so the comparison is
+    // suspended from the failure to the next restart - except for the retried request itself: when the retry is
+    // acknowledged, what it acknowledged must be in the store.
+    let with_fault = match prop {
+        Prop::C01 | Prop::C02 | Prop::C03 => index % 4 == 3,
+        Prop::C11 => !cloud && index % 2 == 1,
+        _ => false,
+    };
+    let mut fault_from: Option<u64> = if with_fault { Some(rng.below(steps.max(1))) } else { None };
+    let mut c11_suspended = false;
+    // the kind of request the fault is aimed at (7: whichever state-changing request comes first)
+    let fault_kind = rng.below(8);
     let fault_len = 1 + rng.below(2);
     // some requests write twice (old-protocol validate = validate + revoke, channel setup = channel + tracker)
     let fault_skip = if rng.chance(1, 4) { 1 } else { 0 };
@@ -1563,12 +1600,30 @@ fn run_history(rng: &mut Rng, r: &mut Report, cli: &Cli, prop: Prop, shard: usiz
         r.count("histories_with_storage_fault_plan");
     }
     for step in 0..steps {
+        let is_retry_step = retry.is_some();
         let op = match retry.take() {
             Some(o) => o,
             None => {
                 if restart_in == Some(0) {
                     restart_in = None;
                     Op::Restart
+                } else if fault_from.map(|f| step >= f).unwrap_or(false) && !h.chans.is_empty() && rng.chance(1, if fault_kind < 7 { 2 } else { 3 }) {
+                    // while the storage fault is pending, steer towards every kind of state-changing request
+                    let c = rng.usize(h.chans.len());
+                    if h.chans[c].ready {
+                        let (nh, nc, nr) = h.peek_counters(c);
+                        match if fault_kind < 7 { fault_kind } else { rng.below(7) } {
+                            0 => Op::MutualClose { c, api: pick_api(rng), bad: false },
+                            1 => Op::SignHolder { c, n: nh.saturating_sub(1), api: pick_api(rng) },
+                            2 => Op::SignHolderRecovery { c },
+                            3 => Op::SignCounterparty { c, n: nc, api: pick_api(rng), point: PointVariant::Right, mutate_content: false },
+                            4 => Op::ValidateRevocation { c, n: nr, api: pick_api(rng), secret: SecretVariant::Right },
+                            5 => Op::ValidateHolder { c, n: nh, api: pick_api(rng), sigs: SigVariant::Valid, fresh_content: true, register: true },
+                            _ => Op::Revoke { c, n: nh, api: pick_api(rng) },
+                        }
+                    } else {
+                        gen_op(rng, &h, prop)
+                    }
                 } else {
                     gen_op(rng, &h, prop)
                 }
@@ -1578,7 +1633,16 @@ fn run_history(rng: &mut Rng, r: &mut Report, cli: &Cli, prop: Prop, shard: usiz
             *k = k.saturating_sub(1);
         }
         let arm = fault_from.map(|f| step >= f).unwrap_or(false)
-            && matches!(op, Op::Setup { .. } | Op::ValidateHolder { .. } | Op::Revoke { .. } | Op::Activate { .. } | Op::SignHolder { .. } | Op::SignHolderRecovery { .. } | Op::SignHolderRedundant { .. } | Op::SignCounterparty { .. } | Op::ValidateRevocation { .. } | Op::MutualClose { .. });
+            && match fault_kind {
+                0 => matches!(op, Op::MutualClose { .. }),
+                1 => matches!(op, Op::SignHolder { .. }),
+                2 => matches!(op, Op::SignHolderRecovery { .. } | Op::SignHolderRedundant { .. }),
+                3 => matches!(op, Op::SignCounterparty { .. }),
+                4 => matches!(op, Op::ValidateRevocation { .. }),
+                5 => matches!(op, Op::ValidateHolder { .. }),
+                6 => matches!(op, Op::Revoke { .. }),
+                _ => matches!(op, Op::Setup { .. } | Op::ValidateHolder { .. } | Op::Revoke { .. } | Op::Activate { .. } | Op::SignHolder { .. } | Op::SignHolderRecovery { .. } | Op::SignHolderRedundant { .. } | Op::SignCounterparty { .. } | Op::ValidateRevocation { .. } | Op::MutualClose { .. }),
+            };
         // content generation and payment registration are separate requests: do them before the snapshot
         if let Op::ValidateHolder { c, n, fresh_content, register, .. } = &op {
             if h.chans[*c].ready {
@@ -1595,7 +1659,8 @@ fn run_history(rng: &mut Rng, r: &mut Report, cli: &Cli, prop: Prop, shard: usiz
         let kind = op_kind(&op);
         if fired > 0 {
             fault_from = None;
-            r.sig_suffix = format!(":after-storage-failure-in-{}", kind);
+            c11_suspended = true;
+            r.sig_suffix = format!(":after-storage-failure-in-{}{}", kind, if matches!(op, Op::ValidateHolder { api: Api::Handler(4), .. }) { ":old-protocol" } else { "" });
             r.count("storage_fault.episodes");
             r.count(&format!("storage_fault.{}.{}.{}", kind, op_api(&op), match &out.res { Res::Ok => "ok", Res::Err(_) => "err", Res::Panic(_) => "panic" }));
             r.distinct_hash(fnv_str(&format!("fault:{}:{}:{}", kind, op_api(&op), out.res.tag())));
@@ -1623,7 +1688,7 @@ fn run_history(rng: &mut Rng, r: &mut Report, cli: &Cli, prop: Prop, shard: usiz
                 }
             }
             if !matches!(out.res, Res::Panic(_)) {
-                match rng.below(8) {
+                match if prop == Prop::C11 { 1 + rng.below(4) } else { rng.below(8) } {
                     0 => restart_in = Some(0),
                     1 | 2 | 3 | 4 => {
                         retry = Some(op.clone());
@@ -1685,6 +1750,17 @@ fn run_history(rng: &mut Rng, r: &mut Report, cli: &Cli, prop: Prop, shard: usiz
                 }
             }
         }
+        // C10, transactional store: a refused request ends without pending mutations (the daemon's
+        // with_persist panics on "stranded mutations")
+        if let (Prop::C10, Res::Err(e), true) = (prop, &out.res, h.world.store.is_cloud()) {
+            let keys: Vec<String> = h.world.last_mutations.lock().unwrap().iter().filter(|k| k.as_str() != "_WRITER").cloned().collect();
+            r.count("c10.cloud_refusals_checked_for_pending_mutations");
+            if !keys.is_empty() {
+                let classes: BTreeSet<String> = keys.iter().map(|k| k.split('/').next().unwrap_or("").to_string()).collect();
+                let sig = format!("c10:refused-request-left-pending-mutations:{}:{}", kind, classes.into_iter().collect::<Vec<_>>().join("+"));
+                r.violation(&sig, witness(&h, cli, json!({"op": format!("{:?}", op), "error": e, "mutation_keys": keys})));
+            }
+        }
         // C10: refused => nothing changed
         if let (Some(before), Res::Err(e)) = (&before, &out.res) {
             let after = snapshot::take(&h.world);
@@ -1720,8 +1796,28 @@ fn run_history(rng: &mut Rng, r: &mut Report, cli: &Cli, prop: Prop, shard: usiz
             }
         }
         monitors(&mut h, r, cli, prop, &op, &out);
+        if matches!(op, Op::Restart) && out.res.is_ok() {
+            c11_suspended = false;
+        }
         if prop == Prop::C11 && !matches!(out.res, Res::Panic(_)) {
-            c11_check(&mut h, r, cli, &op, &out);
+            if !c11_suspended {
+                c11_check(&mut h, r, cli, &op, &out);
+            } else if is_retry_step && fired == 0 && out.res.is_ok() {
+                r.count("c11.acknowledged_retries_after_storage_failure_checked");
+                // one finding per request kind, whatever the comparison and the probes turn up
+                let mut tmp = Report::new(&cli.prop);
+                c11_check(&mut h, &mut tmp, cli, &op, &out);
+                if !tmp.violations.is_empty() {
+                    let old_protocol = matches!(op, Op::ValidateHolder { api: Api::Handler(4), .. });
+                    let saved = std::mem::take(&mut r.sig_suffix);
+                    let sig = format!("c11:acknowledged-retry-after-storage-failure-not-durable:{}{}", kind, if old_protocol { ":old-protocol" } else { "" });
+                    let found: Vec<Value> = tmp.violations.iter().map(|v| json!({"signature": v.signature, "detail": v.detail})).collect();
+                    r.violation(&sig, json!({"op": format!("{:?}", op), "seed": cli.seed, "shard": shard, "history": index, "found_by_the_comparison": found}));
+                    r.sig_suffix = saved;
+                }
+            } else {
+                r.count("c11.suspended_between_storage_failure_and_restart");
+            }
         }
         // distinct situations for C01-C03: (kind, api, relation of n to counter, outcome class)
         if matches!(prop, Prop::C01 | Prop::C02 | Prop::C03 | Prop::C18) {
